@@ -130,3 +130,37 @@ def main():
 
 if __name__ == "__main__":
     main()
+
+
+def refactor_run(d, ids, tier="quick"):
+    """run checks against a behaviour-preserving refactoring: every check must stay silent"""
+    patch = os.path.join(d, "patch.diff")
+    out = {}
+    with Scratch(patch) as mut:
+        ok, tail = baseline(mut.dir)
+        out["baseline_77"] = bool(ok)
+        env = dict(ENV, VERIF_REPO=mut.dir)
+        for pid in ids:
+            rc, txt = sh([os.path.join(HERE, "check"), pid, "--tier", tier], cwd=HERE, env=env, timeout=3600)
+            mechs = re.findall(r"mechanism=(\S+) count=(\d+)", txt)
+            out[pid] = {"exit": rc, "mechanisms": mechs}
+            if rc != 0:
+                out[pid]["tail"] = txt[-1500:]
+    return out
+
+
+if __name__ == "__main__" and len(sys.argv) > 1 and sys.argv[1] == "refs":
+    root = os.path.join(HERE, "refactorings")
+    sel = sys.argv[2:]
+    for name in sorted(os.listdir(root)):
+        d = os.path.join(root, name)
+        if not os.path.exists(os.path.join(d, "patch.diff")) or (sel and not any(s in name for s in sel if not s.startswith("C") or len(s) > 3)):
+            pass
+        meta = json.load(open(os.path.join(d, "meta.json")))
+        if sel and not any(s in name for s in sel):
+            continue
+        ids = [meta["property"]] + ([] if os.environ.get("REFS_OWN_ONLY") else [p for p in meta.get("also", []) if p != meta["property"]])
+        r = refactor_run(d, ids)
+        alarms = {k: v for k, v in r.items() if isinstance(v, dict) and v["exit"] != 0}
+        print("%-12s baseline=%s checks=%s %s" % (name, r["baseline_77"], ",".join(ids),
+              "SILENT" if not alarms else "ALARM " + json.dumps({k: [v["exit"], v["mechanisms"][:3]] for k, v in alarms.items()})), flush=True)
